@@ -30,11 +30,11 @@ def dispatch (avail : List String) (spec : String) : Option (String × String) :
   (avail.find? (fun n => endsWith spec n)).map fun n => (n, chomp spec n)
 
 /-- A call into CPython / the formatter object:
-    `fmt n v acc rest`  = `getattr(formatter, n)(<v>acc).__format__(rest)`
+    `fmt F n v acc rest` = `getattr(F, n)(<v>acc).__format__(rest)`, `F` naming the report's current formatter object
     `plain v acc spec`  = `str(<v>acc).__format__(spec)`
     `conv c v acc spec` = `format(repr/str/ascii(<v>acc), spec)` (a `!r`/`!s`/`!a` conversion: no dispatch). -/
 inductive PrimCall where
-  | fmt (name : String) (v : FVal) (accessor rest : String)
+  | fmt (formatter name : String) (v : FVal) (accessor rest : String)
   | plain (v : FVal) (accessor spec : String)
   | conv (c : String) (v : FVal) (accessor spec : String)
   deriving DecidableEq, Repr, BEq
@@ -42,29 +42,29 @@ inductive PrimCall where
 abbrev Oracle := PrimCall → Except Exc String
 
 /-- `FeedbackFieldWrapper.__format__` (and the conversion path of `str.format`). -/
-def renderField (O : Oracle) (avail : List String) (v : FVal) (accessor conv spec : String) :
+def renderField (O : Oracle) (F : String) (avail : List String) (v : FVal) (accessor conv spec : String) :
     Except Exc String :=
   if conv ≠ "" then O (.conv conv v accessor spec)
   else match dispatch avail spec with
-    | some (n, rest) => O (.fmt n v accessor rest)
+    | some (n, rest) => O (.fmt F n v accessor rest)
     | none => O (.plain v accessor spec)
 
 /-- `template.format(**wrap_fields(formatter, fields))`, left to right; a missing name is a KeyError. -/
-def render (O : Oracle) (avail : List String) (fields : List (String × FVal)) :
+def render (O : Oracle) (F : String) (avail : List String) (fields : List (String × FVal)) :
     Template → Except Exc String
   | [] => .ok ""
   | .lit s :: rest =>
-    match render O avail fields rest with
+    match render O F avail fields rest with
     | .ok r => .ok (s ++ r)
     | .error e => .error e
   | .field name accessor conv spec :: rest =>
     match fields.lookup name with
     | none => .error ⟨"KeyError"⟩
     | some v =>
-      match renderField O avail v accessor conv spec with
+      match renderField O F avail v accessor conv spec with
       | .error e => .error e
       | .ok x =>
-        match render O avail fields rest with
+        match render O F avail fields rest with
         | .ok r => .ok (x ++ r)
         | .error e => .error e
 
